@@ -279,15 +279,34 @@ def check(pid, tier, seed, workers, replay=None, runs_override=None):
            "interleavings": set(), "events": 0}
     ctx = mp.get_context("fork")
     per_chunk_timeout = float(os.environ.get("VERIF_CHUNK_TIMEOUT", "3000"))
+    # time box: a batch that would run into the launcher's wall-clock net (exit 2, not a verdict) on a loaded machine stops
+    # handing out further chunks instead and reports what it covered; which runs a seed denotes never depends on it
+    budget_s = float(os.environ.get("VERIF_BUDGET_S") or 0.6 * float(os.environ.get("VERIF_WALL_TIMEOUT") or 3600))
+    skipped = 0
     if workers <= 1:
-        results = map(work_chunk, jobs)
+        def _serial():
+            nonlocal skipped
+            for j in jobs:
+                if _time.monotonic() - t0 > budget_s:
+                    skipped += j[4] - j[3]
+                    continue
+                yield work_chunk(j)
+        results = list(_serial())
     else:
         ex = cf.ProcessPoolExecutor(max_workers=workers, mp_context=ctx)
-        futs = [ex.submit(work_chunk, j) for j in jobs]
-        results = []
+        # a window of chunks in flight (a submitted future cannot be withdrawn once the pool has queued it)
+        from collections import deque
+        todo, flight, results = deque(jobs), deque(), []
+
+        def _fill():
+            while todo and len(flight) < 2 * workers and _time.monotonic() - t0 <= budget_s:
+                flight.append(ex.submit(work_chunk, todo.popleft()))
         try:
-            for fu in futs:
-                results.append(fu.result(timeout=per_chunk_timeout))
+            _fill()
+            while flight:
+                results.append(flight.popleft().result(timeout=per_chunk_timeout))
+                _fill()
+            skipped = sum(j[4] - j[3] for j in todo)
         except Exception as e:
             print(f"HARNESS-ERROR worker failed: {e!r}")
             for p in list(getattr(ex, "_processes", {}).values()):
@@ -323,6 +342,9 @@ def check(pid, tier, seed, workers, replay=None, runs_override=None):
             if a["first"] is None or slot["first"]["run"] < a["first"]["run"]:
                 a["first"] = slot["first"]
 
+    if skipped:
+        print(f"note: time budget of {budget_s:.0f}s reached: {skipped} of {total} planned runs were not started "
+              f"(coverage below is what actually ran; raise VERIF_BUDGET_S / VERIF_WALL_TIMEOUT for the full batch)")
     for sig, slot in sorted(agg["violations"].items()):
         if sig in known:
             known_hits[sig] += slot["count"]
@@ -372,6 +394,8 @@ def check(pid, tier, seed, workers, replay=None, runs_override=None):
         "property_id": pid, "tier": tier, "seed": seed, "level": prop.LEVEL,
         "coverage": {
             "evaluations": agg["evaluations"],
+            "runs_planned": total,
+            "runs_not_started_time_budget": skipped,
             "distinct_nontrivial": len(agg["distinct"]),
             "nontrivial_runs": agg["nontrivial"],
             "rule": prop.RULE,
